@@ -602,7 +602,19 @@ type vC09Result struct {
 	Stats []int      `json:"stats"`
 }
 
+// vC09Exec runs a plan; the one oracle that depends on the harness's idea of "the association has
+// ended" (the handler returned, Close follows) is retried with ten times longer waits before it counts.
 func vC09Exec(plan *vPlan) vC09Result {
+	res := vC09ExecOnce(plan, 4*time.Millisecond)
+	for _, f := range res.Fails {
+		if f[0] == "C09:fresh:stale-connection-reused" {
+			return vC09ExecOnce(plan, 40*time.Millisecond)
+		}
+	}
+	return res
+}
+
+func vC09ExecOnce(plan *vPlan, settle time.Duration) vC09Result {
 	t0 := time.Now()
 	l := newVC09Log()
 	pc := &vC09PC{log: l, done: make(chan struct{}), clients: map[string]int{}}
@@ -638,7 +650,6 @@ func vC09Exec(plan *vPlan) vC09Result {
 	loopDone := make(chan struct{})
 	go func() { _ = srv.servePacket(pc); close(loopDone) }()
 
-	settle := 4 * time.Millisecond
 	release := func(client int) {
 		l.mu.Lock()
 		for _, a := range l.byClient[client] {
@@ -1011,6 +1022,8 @@ func TestVerifC09(t *testing.T) {
 			out.Fail("C09:loop:panic-close-of-closed-channel", fmt.Sprintf("the server process died with %q during scenario %q", first, pl.Name), pl)
 		case strings.Contains(first, "all goroutines are asleep"):
 			out.Fail("C09:loop:deadlock", fmt.Sprintf("the server process died with %q during scenario %q", first, pl.Name), pl)
+		case strings.Contains(first, "test timed out"):
+			t.Fatalf("child process timed out in scenario %d (%s):\n%s", cur, pl.Name, msg)
 		case first != "":
 			out.Fail("C09:loop:panic-other", fmt.Sprintf("the server process died with %q during scenario %q", first, pl.Name), pl)
 		default:
